@@ -64,6 +64,11 @@ type scase struct {
 	FlipBit  int      `json:"flip_bit"` // corrupt: bit (0..63, MSB first) of the 8 header bytes sent to the real side
 	CutAt    int      `json:"cut_at"`   // cut: deliver only this many handshake bytes to the real side, then EOF
 	Chunker  string   `json:"chunker"`  // informational
+	End      string   `json:"end"`      // "" | eof | reset: both directions end with a final chunk handed out together with that error
+	TailI    int      `json:"tail_i"`   // bytes of the stream towards I that come in the same Read as the error
+	TailR    int      `json:"tail_r"`
+	Batches  int      `json:"batches,omitempty"` // concurrent family
+	Pairs    int      `json:"pairs,omitempty"`
 }
 
 var (
@@ -89,6 +94,7 @@ type ep struct {
 	got   []byte // Lean: plaintext delivered so far
 	state string // last handshake outcome: need | done | fail:<class> | panic
 	fatal string // set when the case cannot continue
+	lerr  string // Lean: error class a read reported
 	due   []byte // plaintext whose ciphertext has been handed to this side's socket in full
 }
 
@@ -98,6 +104,8 @@ func classify(err error) string {
 		return "done"
 	case errors.Is(err, io.EOF), errors.Is(err, io.ErrUnexpectedEOF):
 		return "fail:eof"
+	case errors.Is(err, obfskit.ErrReset):
+		return "fail:reset"
 	case strings.Contains(err.Error(), "invalid magic value"):
 		return "fail:badmagic"
 	case strings.Contains(err.Error(), "padlen too long"):
@@ -261,6 +269,18 @@ func (c *scase) deliverHS(e *ep, data []byte, sizes []int, eofAfter bool) {
 			}
 		}
 		r.Count("deadline", "after-success:"+last)
+		// the constructor has returned: no handshake deadline may stay armed, in either direction
+		// (a conn that honours deadlines would fail a Read/Write 30 s after the connection was made)
+		if rdl, wdl := obfskit.DeadlineState(e.sc.EventsCopy()); rdl != 0 || wdl != 0 {
+			half := "read"
+			if rdl == 0 {
+				half = "write"
+			} else if wdl != 0 {
+				half = "read and write"
+			}
+			c.violate("deadline-left-armed-after-handshake", "impl-oracle",
+				fmt.Sprintf("real %s %s: the handshake succeeded and the constructor returned, but the %s deadline of the conn is still armed (read +%.0fs, write +%.0fs): later I/O in that direction times out", "obfs2", e.role, half, rdl.Seconds(), wdl.Seconds()))
+		}
 	}
 }
 
@@ -298,18 +318,51 @@ func (c *scase) deliverData(e *ep, wire []byte, sizes []int) {
 }
 
 func (c *scase) drain(e *ep) {
-	for {
+	for e.lerr == "" {
 		rep := d.Call("read %s %d", e.sess, c.ReadMax)
 		f := obfskit.Fields(rep)
-		if len(f) == 2 && f[0] == "ok" {
+		switch {
+		case len(f) == 2 && f[0] == "ok":
 			e.got = append(e.got, vlib.UnHex(f[1])...)
 			continue
-		}
-		if rep != "block" {
+		case len(f) == 3 && f[0] == "okerr":
+			e.got = append(e.got, vlib.UnHex(f[1])...)
+			e.lerr = "fail:" + f[2]
+		case len(f) == 2 && f[0] == "fail":
+			e.lerr = "fail:" + f[1]
+		case rep != "block":
 			e.fatal = "lean read: " + rep
 		}
 		break
 	}
+}
+
+// deliverFinal hands a side the end of its input: `front` as an ordinary chunk, then the last
+// `tail` bytes in the same Read as the error (n > 0 together with err, which io.Reader permits).
+// Towards a reference peer the bytes are delivered plainly (there is no real code to examine).
+func (c *scase) deliverFinal(e *ep, wire []byte, tail int) {
+	if !e.real {
+		c.deliverData(e, wire, nil)
+		return
+	}
+	if tail > len(wire) {
+		tail = len(wire)
+	}
+	front, last := wire[:len(wire)-tail], wire[len(wire)-tail:]
+	d.Call("feed %s %s", e.sess, vlib.Hex(front))
+	d.Call("feedlast %s %s %s", e.sess, vlib.Hex(last), c.End)
+	c.drain(e)
+	err := io.EOF
+	if c.End == "reset" {
+		err = obfskit.ErrReset
+	}
+	e.sc.Feed(front)
+	e.sc.FeedWithErr(last, err)
+	e.rd.Pump()
+	if e.rd.Panic != nil {
+		c.violate("read-panics", "impl-oracle", fmt.Sprintf("real %s Read panicked: %v", e.role, e.rd.Panic))
+	}
+	r.Count("end-of-stream", fmt.Sprintf("%s tail=%s", c.End, obfskit.SizeClass(tail)))
 }
 
 func (c *scase) deliverDataReal(e *ep, wire []byte, sizes []int) {
@@ -317,9 +370,6 @@ func (c *scase) deliverDataReal(e *ep, wire []byte, sizes []int) {
 	e.rd.Pump()
 	if e.rd.Panic != nil {
 		c.violate("read-panics", "impl-oracle", fmt.Sprintf("real %s Read panicked: %v", e.role, e.rd.Panic))
-	}
-	if e.rd.Err != nil {
-		c.violate("read-fails", "impl-oracle", fmt.Sprintf("real %s Read: %v", e.role, e.rd.Err))
 	}
 }
 
@@ -477,21 +527,51 @@ func runCase(c *scase) {
 	if c.First == "r" {
 		dataToSecond, dataToFirst = c.DataToI, c.DataToR
 	}
+	var lastFirst, lastSecond []byte
+	if c.End != "" && len(wFirst) > 0 && len(wSecond) > 0 {
+		lastFirst, wFirst = wFirst[len(wFirst)-1], wFirst[:len(wFirst)-1]
+		lastSecond, wSecond = wSecond[len(wSecond)-1], wSecond[:len(wSecond)-1]
+	}
 	send(first, second, wFirst, dataToSecond)
 	send(second, first, wSecond, dataToFirst)
+	if lastFirst != nil {
+		// both sides write once more, then each input ends: the last bytes arrive with the error
+		w1 := c.write(first, lastFirst)
+		w2 := c.write(second, lastSecond)
+		if first.fatal != "" || second.fatal != "" {
+			return
+		}
+		tailSecond, tailFirst := c.TailR, c.TailI
+		if c.First == "r" {
+			tailSecond, tailFirst = c.TailI, c.TailR
+		}
+		c.deliverFinal(second, w1, tailSecond)
+		c.deliverFinal(first, w2, tailFirst)
+	}
 	_ = sentFirst
 	// --- judge
 	check := func(to *ep, from *ep, want []byte) {
 		if to.real {
 			r.Validated(1)
-			if string(to.rd.Got) != string(to.got) {
+			rc := ""
+			if to.rd.Err != nil {
+				rc = classify(to.rd.Err)
+			}
+			if string(to.rd.Got) != string(to.got) || rc != to.lerr {
 				c.violate("delivered-differs-from-model", "correspondence",
-					fmt.Sprintf("real %s delivered %d bytes, its model shadow %d bytes (first difference at %d)", to.role, len(to.rd.Got), len(to.got), firstDiff(to.rd.Got, to.got)))
+					fmt.Sprintf("real %s delivered %d bytes (err %q), its model shadow %d bytes (err %q) (first difference at %d)", to.role, len(to.rd.Got), rc, len(to.got), to.lerr, firstDiff(to.rd.Got, to.got)))
+			}
+			if c.End == "" && to.rd.Err != nil {
+				c.violate("read-fails", "impl-oracle", fmt.Sprintf("real %s Read: %v", to.role, to.rd.Err))
 			}
 			if string(to.rd.Got) != string(want) {
 				sig := "stream-not-delivered-intact"
 				if !from.real {
 					sig = "no-interop-with-reference-peer"
+				}
+				if c.End != "" && to.rd.Err != nil && len(to.rd.Got) < len(want) && string(want[:len(to.rd.Got)]) == string(to.rd.Got) {
+					// every byte the peer wrote must be delivered before the error is reported
+					sig = "tail-lost-data-delivered-with-error"
 				}
 				c.violate(sig, "impl-oracle",
 					fmt.Sprintf("%s %s wrote %d bytes, real %s read %d bytes, first difference at %d (blocked=%v)", kindOf(from), from.role, len(want), to.role, len(to.rd.Got), firstDiff(to.rd.Got, want), to.rd.Err == nil))
@@ -599,6 +679,148 @@ func (c *scase) malformed(I, R *ep) bool {
 		}
 	}
 	return reached || c.Kind == "cut"
+}
+
+// ---------------------------------------------------------------- concurrency (S oracle only)
+
+// runConcurrent: `batches` × `pairs` real client↔server pairs over buffered in-memory pipes, all
+// handshakes of a batch released at the same instant on separate goroutines. Sequential
+// connections cannot reveal state shared between connections (a package-level hash or cipher
+// instance, a shared scratch buffer); overlapping ones do. Every pair must complete and carry its
+// payloads intact; nothing is compared with the model here (scheduling is not reproducible).
+func runConcurrent(c *scase) {
+	tape = vlib.InstallRandTape(c.TapeSeed)
+	csrand.Reader = tape
+	g := vlib.NewRng(c.TapeSeed ^ 0x5eed)
+	dial := func(raw net.Conn) (net.Conn, error) {
+		return cf.Dial("tcp", "192.0.2.1:1", func(string, string) (net.Conn, error) { return raw, nil }, nil)
+	}
+	bad := 0
+	for b := 0; b < c.Batches; b++ {
+		pl := make([][2][]byte, c.Pairs)
+		for i := range pl {
+			pl[i] = [2][]byte{g.Bytes(1 + g.Intn(3000)), g.Bytes(1 + g.Intn(3000))}
+		}
+		res := obfskit.RunPairs(c.Pairs, func(i int) ([]byte, []byte) { return pl[i][0], pl[i][1] }, dial, sf.WrapConn, 10*time.Second)
+		for i, x := range res {
+			r.Case(fmt.Sprintf("concurrent %d batch %d pair %d", c.TapeSeed, b, i), true)
+			r.Count("kind", "concurrent-real-real")
+			if x.Err == "" {
+				continue
+			}
+			bad++
+			sig := "stream-garbled-under-concurrency"
+			if x.Panic || strings.Contains(x.Err, "handshake") || strings.Contains(x.Err, "in time") || strings.Contains(x.Err, "read:") {
+				sig = "handshake-fails-under-concurrency"
+			}
+			c.violate(sig, "impl-oracle",
+				fmt.Sprintf("batch %d of %d simultaneous obfs2 client/server pairs in one process, pair %d: %s (the same pair run alone completes)", b, c.Pairs, i, x.Err))
+		}
+		if bad > 0 {
+			break // one failing batch is the finding; further batches would only repeat it (and may each run into the time limit)
+		}
+	}
+	r.Count("concurrent-outcome", fmt.Sprintf("failed-pairs=%d", bad))
+}
+
+// runConcurrentLean: real endpoints (alternating roles) whose handshakes run simultaneously, each
+// against its own reference peer; afterwards every pair must interoperate byte for byte.
+func runConcurrentLean(c *scase) {
+	tape = vlib.InstallRandTape(c.TapeSeed)
+	csrand.Reader = tape
+	g := vlib.NewRng(c.TapeSeed ^ 0x1ea4)
+	type pr struct {
+		real *ep
+		lean *ep
+	}
+	ps := make([]pr, c.Pairs)
+	gate := make(chan struct{})
+	for i := range ps {
+		roleReal, roleLean := "i", "r"
+		if i%2 == 1 {
+			roleReal, roleLean = "r", "i"
+		}
+		pad := g.Intn(maxPadding + 1)
+		if i%4 == 0 {
+			pad = g.Intn(40)
+		}
+		L := &ep{role: roleLean, spec: sideSpec{Seed: randHex(g, 16), Pad: pad, PadBytes: randHex(g, pad), HdrPad: -1}}
+		c.start(L)
+		R := &ep{role: roleReal, real: true}
+		R.sc = vlib.NewScriptConn()
+		nSes++
+		if roleReal == "i" {
+			R.op = R.sc.Start(func() {
+				<-gate
+				R.conn, R.err = cf.Dial("tcp", "192.0.2.1:1", func(string, string) (net.Conn, error) { return R.sc, nil }, nil)
+			})
+		} else {
+			R.op = R.sc.Start(func() { <-gate; R.conn, R.err = sf.WrapConn(R.sc) })
+		}
+		ps[i] = pr{R, L}
+	}
+	defer func() {
+		for _, p := range ps {
+			p.real.close()
+			p.lean.close()
+		}
+	}()
+	close(gate) // all handshakes start now
+	for _, p := range ps {
+		p.real.sc.Wait(p.real.op) // blocked waiting for the peer's seed (or failed early)
+	}
+	for _, p := range ps {
+		if p.lean.fatal == "" {
+			p.real.sc.Feed(p.lean.hs) // … and complete now, overlapping
+		}
+	}
+	for i, p := range ps {
+		r.Case(fmt.Sprintf("concurrent-lean %d pair %d", c.TapeSeed, i), true)
+		r.Count("kind", "concurrent-real-reference")
+		fail := func(msg string) {
+			c.violate("no-interop-with-reference-peer-under-concurrency", "impl-oracle",
+				fmt.Sprintf("%d real obfs2 endpoints handshaking simultaneously, each with its own reference peer; endpoint %d (%s): %s", c.Pairs, i, p.real.role, msg))
+		}
+		if p.lean.fatal != "" {
+			fail("reference peer: " + p.lean.fatal)
+			continue
+		}
+		fin := p.real.sc.Wait(p.real.op)
+		if !fin || p.real.op.Panic != nil || p.real.err != nil {
+			fail(fmt.Sprintf("handshake finished=%v err=%v panic=%v", fin, p.real.err, p.real.op.Panic))
+			continue
+		}
+		hs := p.real.sc.TakeWritten()
+		if st := leanState(d.Call("feed %s %s", p.lean.sess, vlib.Hex(hs))); st != "done" {
+			fail("the reference peer does not accept its handshake: " + st)
+			continue
+		}
+		msg := g.Bytes(1 + g.Intn(500))
+		n, err, pv := safeWrite(p.real.conn, msg)
+		if pv != nil || err != nil || n != len(msg) {
+			fail(fmt.Sprintf("Write: %v %v", err, pv))
+			continue
+		}
+		c.ReadMax = 4096
+		d.Call("feed %s %s", p.lean.sess, vlib.Hex(p.real.sc.TakeWritten()))
+		c.drain(p.lean)
+		if string(p.lean.got) != string(msg) {
+			fail("the reference peer decrypts garbage (wrong session keys)")
+			continue
+		}
+		back := g.Bytes(1 + g.Intn(500))
+		f := obfskit.Fields(d.Call("write %s %s", p.lean.sess, vlib.Hex(back)))
+		if len(f) != 2 {
+			fail("reference write")
+			continue
+		}
+		rd := &obfskit.Reader{SC: p.real.sc, Conn: p.real.conn, Max: 4096}
+		p.real.sc.Feed(vlib.UnHex(f[1]))
+		rd.Pump()
+		if string(rd.Got) != string(back) {
+			fail("the real endpoint decrypts garbage (wrong session keys)")
+		}
+	}
 }
 
 // ---------------------------------------------------------------- generators
@@ -709,6 +931,18 @@ func genSession(g *vlib.Rng, i int, chunker string, iReal, rReal bool) *scase {
 	bI, bR := bounds(c.WritesI), bounds(c.WritesR)
 	c.DataToR = obfskit.Sizes(g, chunker, restI, bI)
 	c.DataToI = obfskit.Sizes(g, chunker, restR, bR)
+	if i%3 == 1 {
+		// the connection ends in both directions: the last bytes come in the same Read as the error
+		c.End = vlib.Pick(g, []string{"eof", "eof", "reset"})
+		tail := func(ws []string) int {
+			n := len(vlib.UnHex(ws[len(ws)-1]))
+			if n > c.ReadMax {
+				n = c.ReadMax
+			}
+			return 1 + g.Intn(n)
+		}
+		c.TailR, c.TailI = tail(c.WritesI), tail(c.WritesR)
+	}
 	return c
 }
 
@@ -822,11 +1056,26 @@ func main() {
 			fmt.Println("cannot load replay:", err)
 			r.Finish()
 		}
-		runCase(&c)
+		switch c.Kind {
+		case "concurrent":
+			c.Batches *= 10 // scheduling is not reproducible: replay the family, harder
+			runConcurrent(&c)
+		case "concurrent-lean":
+			for i := 0; i < 10; i++ {
+				runConcurrentLean(&c)
+			}
+		default:
+			runCase(&c)
+		}
 		r.Finish()
 	}
 
 	g := vlib.NewRng(r.Seed)
+	// overlapping connections first (r.Scale triples the counts in search mode)
+	runConcurrent(&scase{Kind: "concurrent", TapeSeed: g.U64(), Batches: r.Scale(300, 3000), Pairs: 16})
+	for i := 0; i < r.Scale(3, 20); i++ {
+		runConcurrentLean(&scase{Kind: "concurrent-lean", TapeSeed: g.U64(), Pairs: 16})
+	}
 	reps := r.Scale(10, 330)
 	configs := [][2]bool{{true, true}, {true, false}, {false, true}}
 	i := 0
